@@ -16,6 +16,26 @@ theorem All2.length_eq {α β} {r : α → β → Prop} {as : List α} {bs : Lis
   | nil => rfl
   | cons _ _ ih => simp [ih]
 
+theorem All2.exists_right {α β} {r : α → β → Prop} {as : List α} {bs : List β} (h : All2 r as bs)
+    {a : α} (ha : a ∈ as) : ∃ b, b ∈ bs ∧ r a b := by
+  induction h with
+  | nil => cases ha
+  | @cons a' b' as' bs' hab _ ih =>
+    rcases List.mem_cons.mp ha with h | h
+    · subst h; exact ⟨b', List.mem_cons_self .., hab⟩
+    · obtain ⟨b, hb, hr⟩ := ih h
+      exact ⟨b, List.mem_cons_of_mem _ hb, hr⟩
+
+theorem All2.exists_left {α β} {r : α → β → Prop} {as : List α} {bs : List β} (h : All2 r as bs)
+    {b : β} (hb : b ∈ bs) : ∃ a, a ∈ as ∧ r a b := by
+  induction h with
+  | nil => cases hb
+  | @cons a' b' as' bs' hab _ ih =>
+    rcases List.mem_cons.mp hb with h | h
+    · subst h; exact ⟨a', List.mem_cons_self .., hab⟩
+    · obtain ⟨a, ha, hr⟩ := ih h
+      exact ⟨a, List.mem_cons_of_mem _ ha, hr⟩
+
 namespace V
 
 @[simp] theorem and_pass_left (a : V) : V.and .pass a = a := by cases a <;> rfl
@@ -56,6 +76,34 @@ theorem all_append {α} (f : α → V) (l₁ l₂ : List α) :
   | cons a l ih =>
     simp only [List.cons_append, all_cons, ih]
     cases f a <;> cases V.all f l <;> cases V.all f l₂ <;> rfl
+
+theorem and_comm (a b : V) : V.and a b = V.and b a := by cases a <;> cases b <;> rfl
+theorem and_assoc (a b c : V) : V.and (V.and a b) c = V.and a (V.and b c) := by
+  cases a <;> cases b <;> cases c <;> rfl
+theorem and_left_comm (a b c : V) : V.and a (V.and b c) = V.and b (V.and a c) := by
+  cases a <;> cases b <;> cases c <;> rfl
+
+instance : Std.Associative V.and := ⟨and_assoc⟩
+instance : Std.Commutative V.and := ⟨and_comm⟩
+
+theorem all_filter_split {α} (f : α → V) (p : α → Bool) (l : List α) :
+    V.all f (l.filter p ++ l.filter fun x => !p x) = V.all f l := by
+  induction l with
+  | nil => rfl
+  | cons a l ih =>
+    by_cases h : p a = true
+    · simp only [List.filter, h, Bool.not_true, List.cons_append, all_cons, ih]
+    · have h' : p a = false := by simpa using h
+      simp only [List.filter, h', Bool.not_false]
+      rw [all_append, all_cons, and_left_comm, ← all_append, ih, all_cons]
+
+theorem ofBool_all_and {α} (a : α → Bool) (b : α → V) (l : List α) :
+    (V.ofBool (l.all a)).and (V.all b l) = V.all (fun d => (V.ofBool (a d)).and (b d)) l := by
+  induction l with
+  | nil => rfl
+  | cons x l ih =>
+    simp only [List.all_cons, all_cons, ← ih, ← ofBool_and]
+    cases V.ofBool (a x) <;> cases V.ofBool (l.all a) <;> cases b x <;> cases V.all b l <;> rfl
 
 theorem all_map {α β} (f : β → V) (g : α → β) (l : List α) : V.all f (l.map g) = V.all (fun a => f (g a)) l := by
   induction l with
@@ -104,6 +152,7 @@ theorem eq_of_ne_crash {a : V} {b : Bool} (h : R a b) (hc : a ≠ .crash) : a = 
   · exact h
 
 theorem congr {a : V} {b b' : Bool} (h : R a b) (e : b = b') : R a b' := e ▸ h
+theorem congr2 {a a' : V} {b b' : Bool} (h : R a b) (e1 : a = a') (e2 : b = b') : R a' b' := e1 ▸ e2 ▸ h
 
 theorem all {α} {f : α → V} {g : α → Bool} {l : List α} (h : ∀ x ∈ l, R (f x) (g x)) :
     R (V.all f l) (l.all g) := by
@@ -112,6 +161,12 @@ theorem all {α} {f : α → V} {g : α → Bool} {l : List α} (h : ∀ x ∈ l
   | cons a l ih =>
     simp only [V.all_cons, List.all_cons]
     exact R.and (h a (List.mem_cons_self ..)) (ih fun x hx => h x (List.mem_cons_of_mem _ hx))
+
+theorem all2 {α β} {f : α → V} {g : β → Bool} {as : List α} {bs : List β}
+    (h : All2 (fun a b => R (f a) (g b)) as bs) : R (V.all f as) (bs.all g) := by
+  induction h with
+  | nil => exact Or.inr rfl
+  | cons hab _ ih => simp only [V.all_cons, List.all_cons]; exact R.and hab ih
 
 theorem any {α} {f : α → V} {g : α → Bool} {l : List α} (h : ∀ x ∈ l, R (f x) (g x)) :
     R (V.any f l) (l.any g) := by
